@@ -1302,6 +1302,11 @@ func SelectExpr(query *Query, current Map, expr *sqlparser.SelectExprs, opts ...
 						delete(data, "<-")
 						return nil
 					})
+					// neither the back-navigation marker nor a not yet evaluated
+					// CTE of the scope is a column of the row
+					if _, isCte := value.(CteEvaluation); isCte || key == "<-" {
+						continue
+					}
 					data[key] = value
 				}
 			}
